@@ -65,6 +65,13 @@ def run(R, ctx):
                                "Slow-reader sessions: a client pipelines 1 MiB replies, reads the first chunk, does not read for 6.5 s (thorough: also 12 s, 35 s), then "
                                "reads on: every reply whole and in order. Half-closed pipelines (TCP, sending side closed right after the last byte): exactly one reply per command written.", parallel=6, halfclose=3,
                                stalls=((6500,) if R.tier == "quick" else (6500, 12000, 35000)), extra_lines=extra)
+    # the cluster-mode connection loop (Manager.HandleCluster + the apply loop handleClusterCommits): exactly one reply per command, each
+    # connection its own, in order - Rendezvous.own_reply, tied by the rendezvous engine (the harness plays raft); C07 runs the large suite
+    binary, err = core.build_harness()
+    if binary is not None:
+        from .. import rendezvousgen
+        rendezvousgen.run_suite(R, ctx, binary, 150 if R.tier == "quick" else 3000)
+        R.rule += (" || rendezvous (cluster-mode connection loop): a line is non-trivial when at least one committed proposal's reply reached its connection and was compared")
     if broken and not any(found for _p, _s, found in R.violations):
         # fact F6 is broken and neither the suite nor the sessions aimed at the offending executors produced a framing break: name the call
         if all(t.startswith("ReplySites.") for t, _ in getattr(ctx, "broken", [])):
